@@ -211,7 +211,16 @@ impl<T> ValVec32<T> {
     /// # Ok::<(), zipora::ZiporaError>(())
     /// ```
     pub fn with_capacity(capacity: u32) -> Result<Self> {
-        if capacity == 0 || mem::size_of::<T>() == 0 {
+        if mem::size_of::<T>() == 0 {
+            // Zero-sized elements need no memory: every capacity is available at once
+            // (Clone relies on with_capacity(len) being able to hold len elements)
+            return Ok(Self {
+                ptr: NonNull::dangling(),
+                len: 0,
+                capacity: MAX_CAPACITY,
+            });
+        }
+        if capacity == 0 {
             return Ok(Self::new());
         }
 
@@ -734,7 +743,8 @@ impl<T> ValVec32<T> {
     /// ```
     #[inline]
     pub fn as_slice(&self) -> &[T] {
-        if self.len == 0 || mem::size_of::<T>() == 0 {
+        // (for zero-sized T the dangling, aligned pointer is a valid base for a slice of len elements)
+        if self.len == 0 {
             return &[];
         }
         // SAFETY: We have len valid elements starting from ptr
@@ -744,7 +754,7 @@ impl<T> ValVec32<T> {
     /// Returns a mutable slice containing all elements
     #[inline]
     pub fn as_mut_slice(&mut self) -> &mut [T] {
-        if self.len == 0 || mem::size_of::<T>() == 0 {
+        if self.len == 0 {
             return &mut [];
         }
         // SAFETY: We have len valid elements starting from ptr
